@@ -53,6 +53,20 @@ static const Frag FRAGS[] = {
  {"notstr",    "", "$a = \"absent_marker_xyz\"",                       "not $a",                      "", "not"},
  {"zerocount", "", "$a = \"absent_marker_xyz\"\n    $b = \"alpha_text\"", "#a == 0 and $b",          "alpha_text", "count not"},
  {"arith",     "", "",                                                 "(7 * 6) % 5 == 2 and (1 << 4) | 3 == 19 and -3 \\ 2 == -1 and 2.5 * 2 == 5.0", "", "arith"},
+ {"countin",   "", "$a = \"cin!\"",                                    "#a in (0..filesize) == 2 and #a in (0..3) <= 1", "..cin!..cin!", "count_in"},
+ {"ofin",      "", "$a = \"ofin_1\"\n    $b = \"ofin_2\"",              "1 of them in (0..filesize) and all of them in (0..filesize)", "ofin_1ofin_2", "of_in"},
+ {"ofat",      "", "$a = \"ofat_x\"\n    $b = \"ofat_never\"",          "#a > 0 and any of them at @a[1] and not all of them at @a[1]", "ofat_x", "of_at"},
+ {"pctof",     "", "$a = \"pct_1\"\n    $b = \"pct_2\"\n    $c = \"pct_never_3\"\n    $d = \"pct_never_4\"", "50% of them and not 75% of them", "pct_1 pct_2", "of percent"},
+ {"forofat",   "", "$a = \"foa_1\"\n    $b = \"foa_2\"",                "for all of them : ( $ in (0..filesize) and # >= 1 and @ >= 0 )", "foa_1foa_2", "for_of in"},
+ {"intenum",   "", "",                                                 "for any i in (3, 5, filesize) : ( i == filesize ) and for all i in (1, 2) : ( i < 3 ) and for 2 i in (1..4) : ( i % 2 == 0 )", "", "for_in enum"},
+ {"bitops",    "", "",                                                 "(filesize ^ filesize) == 0 and (~filesize) & 1 == 1 - (filesize & 1) and (filesize >> 1) <= filesize and (filesize << 1) >= filesize and (filesize | 1) >= 1", "", "bitwise"},
+ {"dblops",    "", "",                                                 "(filesize + 0.5) > filesize and (filesize + 0.5) <= filesize + 1 and filesize \\ 2.0 != filesize + 1.0 and (filesize + 0.5) - 0.5 == filesize and (filesize * 1.0) >= 0.0 and -(filesize + 0.5) < 0.0", "", "double"},
+ {"strcmp",    "", "",                                                 "\"abc\" < \"abd\" and \"abc\" <= \"abc\" and \"b\" > \"a\" and \"b\" >= \"b\" and \"FooBar\" istartswith \"foo\" and \"foobar\" endswith \"bar\" and \"FooBar\" iendswith \"BAR\" and \"a\" != \"b\"", "", "string_cmp"},
+ {"uintsmore", "", "",                                                 "(uint32(0) >= 0 and int16(0) != 0x7fff1 and uint16be(1) >= 0 and int32be(0) == int32be(0) and uint8(0) <= 255) or not defined uint32(filesize)", "", "uint more"},
+ {"widenocase","", "$a = \"WiNoCa\" wide nocase",                      "$a",                          "w\\0i\\0n\\0o\\0c\\0a\\0", "wide nocase"},
+ {"xorwide",   "", "$a = \"xwsecret\" xor(1-255) wide",                "$a",                          "\\x22Z\\x2dZ\\x29Z\\x3fZ\\x39Z\\x28Z\\x3fZ\\x2eZ", "xor wide"},
+ {"fullwide",  "", "$a = \"fwide\" fullword wide",                     "$a",                          " \\0f\\0w\\0i\\0d\\0e\\0 \\0", "fullword wide"},
+ {"definedop", "", "",                                                 "defined filesize and not defined uint8(filesize + 10) and (defined uint8(0) or filesize == 0)", "", "defined"},
  {"pe",        "pe", "",                                               "pe.number_of_sections > 0 and pe.sections[0].name != \"\"", "", "module pe"},
  {"pefunc",    "pe", "",                                               "pe.is_pe and (pe.imphash() != \"\" or pe.exports(\"x\") or true)", "", "module pe func"},
  {"pesig",     "pe", "",                                               "pe.number_of_signatures >= 0 and for all i in (0..pe.number_of_signatures) : ( i >= 0 )", "", "module pe sig"},
@@ -173,10 +187,16 @@ static inline LabCase gen_labcase(Rng& rng, int max_rules, bool modules, bool ex
     if (!r.is_global || rng.chance(3, 4)) { plants += unescape(FRAGS[f].plant); plants += " ~ "; }
   }
   if (externals) add_default_externals(lc.spec);
+  // an external named like a built-in module that this rule set does not import: inside a scanner, externals and
+  // module structures live in one table keyed by name
+  bool imports_time = false; for (auto& gs : sets) for (auto& r : gs.rules) if (!strcmp(FRAGS[r.frag].import, "time")) imports_time = true;
+  bool modname = externals && !imports_time;
+  if (modname) lc.spec.externals.push_back({"time", 'i', 42, 0, ""});
   for (int i = 0; i < nns; i++) {
     if (sets[i].rules.empty() && !(externals && i == 0)) continue;
     std::string src = sets[i].source();
     if (externals && i == 0) src += ext_probe_rules();
+    if (modname && i == 0) src += "rule x_modname { condition: time == 42 }\n";
     lc.spec.sources.push_back({i == 0 ? "" : "ns" + std::to_string(i), src});
   }
   lc.desc = std::to_string(n) + " rules/" + std::to_string(nns) + " ns" + (externals ? "+ext" : "");
